@@ -144,7 +144,12 @@ func GenRouteFile(r *R, idx int, o RouteOpts) *ir.Request {
 					segs = append(segs, Pick(r, lit))
 				default:
 					for ; vi < nvars; vi++ {
-						segs = append(segs, Pick(r, lit), "{"+fields[vi].name+"}")
+						l := Pick(r, lit)
+						if r.P(1, 4) {
+							// the literal before a placeholder is spelled like the variable itself (`/email/{email}`)
+							l = fields[vi].name
+						}
+						segs = append(segs, l, "{"+fields[vi].name+"}")
 					}
 					if nvars == 0 || r.Bool() {
 						segs = append(segs, Pick(r, lit))
